@@ -851,6 +851,24 @@ class Sim:
         st, v = call(lambda: f != copy)
         if st == "exc" or v is not False:
             self.fail("mapping:ne-true-for-equal", got=v if st == "ok" else exc_name(v))
+        # a container is not equal to something that is no container of its kind (an ordinary mapping's == returns False
+        # there, it does not raise and does not say True)
+        odd = [0, "x", None, {}, []]
+        elems = [("file", f)]
+        for bn in list(self.model)[:1]:
+            blk0 = f[bn]
+            elems.append(("block", blk0))
+            for cn in list(self.model[bn])[:1]:
+                cat0 = blk0[cn]
+                elems.append(("category", cat0))
+                for col in list(self.model[bn][cn])[:1]:
+                    elems.append(("column", cat0[col]))
+        for i, (lvl, obj) in enumerate(elems):
+            other = elems[(i + 1) % len(elems)][1] if len(elems) > 1 else 0
+            for o in odd[: 2] + [other]:
+                st, v = call(lambda: obj == o)
+                if st == "exc" or v is not False:
+                    self.fail("mapping:eq-with-another-kind-of-object", level=lvl, other=type(o).__name__, got=v if st == "ok" else exc_name(v))
         # equality of mappings does not depend on the insertion order: move the first block, the first category of
         # every block and the first column of every category to the end (pop + set, on a second copy)
         st, rcopy = call(self.durable_copy, f)
